@@ -525,6 +525,15 @@ class _Gen(object):
         col.update({"body": ["none"], "cmt": "", "ord": 0})
         self.cols[cid] = col
         self.by_tab[t["id"]].append(cid)
+      # a column may be named like a table of the document (a reference column called after its target,
+      # say): `$Orders` and `Orders.lookupRecords(..)` then differ only by their position in the formula
+      if rnd.random() < 0.4:
+        tn = rnd.choice(self.tables)["name"]
+        if tn.upper() not in used:
+          cid = rnd.choice(self.by_tab[t["id"]])
+          used.discard(self.cols[cid]["name"].upper())
+          self.cols[cid]["name"] = tn
+          used.add(tn.upper())
       self.used_names = getattr(self, "used_names", {})
       self.used_names[t["id"]] = used
     nform = rnd.randint(6, 12)
